@@ -48,6 +48,31 @@ def run(chk, ctx):
         good = good and m is not None and int(m.group(1)) >= 0 and pay == "EvalContext::random(ctx, %s)" % rng
     chk.require(good, "CNT", "CNT:random:one-evaluation-one-draw-returned-unchanged", "Ok(ctx.random(c..eval(args[0]))) with c >= 0: %s" % rng, "random() Ok paths: %s" % sorted(oks, key=str), "%s:%d" % (fb.file, fb.line))
     chk.require(all(not r[2] for r in errs), "CNT", "CNT:random:no-draw-on-error-paths", "", "error paths of random() draw: %s" % sorted(errs, key=str))
+    # "`random(n)` with n >= 2 yields ...": the only bounds that are refused are those whose range `c..n` is empty.  Every path that
+    # returns Ok must be open to each n > c (+0: the range c..n is non-empty iff n > c), i.e. the comparison facts on a value-returning
+    # path, read as an interval of n, are exactly n > c — `n <= c` / `n < c+1` on the error side in any spelling.
+    N = "try(Expr::eval(args[0], ctx))"
+    m_ = re.fullmatch(r"ops::Range\{start: (\d+), end: .*\}", rng)
+    if m_:
+        c0 = int(m_.group(1))
+        lows = set()
+        for pi in tab.paths(P, fb, to_return_only=True):
+            if ordrules.ret_shape(pi) != "Ok":
+                continue
+            lo = None          # smallest n admitted on this path
+            other = []
+            for f in pi.cmp_facts():
+                if f[0] in ("Gt", "Ge", "Lt", "Le", "Eq", "Ne") and f[1] == N and re.fullmatch(r"-?\d+", str(f[2])):
+                    k = int(f[2])
+                    if f[0] == "Gt":
+                        lo = max(lo, k + 1) if lo is not None else k + 1
+                    elif f[0] == "Ge":
+                        lo = max(lo, k) if lo is not None else k
+                    else:
+                        other.append(f[:3])
+            lows.add((lo, tuple(sorted(set(other)))))
+        chk.require(lows == {(c0 + 1, ())}, "GUARD", "GUARD:random:refused-only-when-the-range-is-empty", "a value is returned exactly for n >= %d (the range %d..n is non-empty)" % (c0 + 1, c0),
+                    "random() returns a value for (smallest admitted n, other conditions) = %s, but the range %d..n is non-empty from n = %d on: some valid bound is refused (or an empty range admitted)" % (sorted(lows, key=str), c0, c0 + 1), "%s:%d" % (fb.file, fb.line))
     rb = P.body(EC + "random")
     if chk.anchor("EvalContext::random", rb):
         cs = panrules.canon_calls(P, rb)
